@@ -122,11 +122,6 @@ def lemma_rfcomm_fields(frame_type, c_r, dlci, p_f, information, with_credits):
     assert 4 * ((b[0] // 4) % 64) + 2 * ((b[0] // 2) % 2) + 1 == b[0]
     assert (b[1] & 0xEF) + 16 * ((b[1] // 16) % 2) == b[1]
     assert (b[1] & 0xEF) == frame_type
-    # (proof hints: a frame rebuilt from the decoded fields has the same length indicator and hence the same FCS input)
-    h = rfcomm.RFCOMM_Frame(frame_type, c_r, dlci, p_f, b[3:-1] if n <= 127 else b[4:-1], with_credits)
-    assert h.address == f.address and h.control == f.control
-    assert h.length == f.length
-    assert h.fcs == f.fcs
     d2 = (b[0] >> 2) & 0x3F
     c2 = (b[0] >> 1) & 0x01
     p2 = (b[1] >> 4) & 0x01
